@@ -66,12 +66,12 @@ def check(prop, tier, seed):
         attempts += 1
         small, small_res = core.minimise(mod, case, res, budget_s=60)
         # replay must reproduce exactly, twice, before it is reported
-        r1 = mod.run_case(small)
-        r2 = mod.run_case(small)
+        r1 = core.run_case_in_dir(mod, small)
+        r2 = core.run_case_in_dir(mod, small)
         if r1.get("ok") or r2.get("ok") or r1.get("class") != small_res.get("class") or r2.get("class") != small_res.get("class"):
             # fall back to the unminimised case
-            r1 = mod.run_case(case)
-            r2 = mod.run_case(case)
+            r1 = core.run_case_in_dir(mod, case)
+            r2 = core.run_case_in_dir(mod, case)
             if r1.get("ok") or r2.get("ok") or r1.get("class") != res.get("class"):
                 print("HARNESS-ERROR: failure of case %s (%s) did not reproduce" % (case.get("id"), res.get("class")), flush=True)
                 rc = max(rc, 2)
@@ -117,7 +117,7 @@ def replay(path):
     prop = doc["property"]
     mod = load(prop)
     core.build_all(need_probe=getattr(mod, "NEED_PROBE", False))
-    res = mod.run_case(doc["case"])
+    res = core.run_case_in_dir(mod, doc["case"])
     core.cleanup_scratch()
     if res.get("ok"):
         print("replay: case passes (no violation) on the current tree")
